@@ -278,7 +278,7 @@ def work(n):
 '''
 
 FACETS = ['prng', 'warnings', 'recursion', 'decimal', 'environ', 'syspath', 'cwd', 'logging', 'gc', 'hooks',
-          'switchinterval', 'finalizers']
+          'switchinterval', 'finalizers', 'retained']
 FEATURE_ARGS = {
     'snapshot': {},
     'watch': {},
@@ -314,6 +314,7 @@ def _fingerprint(mod):
         'hooks': (id(sys.excepthook), id(threading.excepthook), id(sys.unraisablehook), id(sys.displayhook)),
         'switchinterval': sys.getswitchinterval(),
         'finalizers': 0,       # measured per step: objects whose last reference went away but which were not finalized
+        'retained': 0,         # measured per step: ... and that are STILL not finalized after a garbage collection
     }
 
 
@@ -355,6 +356,8 @@ def _host_change(facet, k):
         sys.setswitchinterval(sys.getswitchinterval() * 1.01)
     elif facet == 'finalizers':
         pass        # (the host-side change is made by the caller: it parks an object in a reference cycle)
+    elif facet == 'retained':
+        pass        # (made by the caller: it keeps an object alive in a module-level list)
 
 
 def ambient_leg(c, rng, wd, nruns):
@@ -406,22 +409,26 @@ def ambient_leg(c, rng, wd, nruns):
                     else:
                         plan.append(('agent', sorted(rng.sample(features, rng.randint(1, len(features))))))
             k = 0
-            runs_of_work = 0
-            parked = []
+            created = 0             # Res objects made so far (one per run of `work`, plus the application's own)
+            kept = []
             gc.disable()            # the cyclic collector runs when the harness says so (deterministic measurement)
             expect_show = True      # the once-per-location registry is empty: the loop's warning will be shown once
             for kind, what in plan:
                 k += 1
                 before = _fingerprint(mod)
                 nshown = len(shown)
-                pending_before = runs_of_work - mod.FINALIZED[0] + len(parked)
+                pending_before = created - mod.FINALIZED[0] - len(kept)
+                kept_before = len(kept)
                 if kind == 'host':
                     _host_change(what, k)
                     if what == 'finalizers':
                         cyc = [mod.Res()]
                         cyc.append(cyc)          # the application itself leaves an object to the cyclic collector
-                        parked.append(1)
+                        created += 1
                         del cyc
+                    if what == 'retained':
+                        kept.append(mod.Res())   # the application itself keeps an object alive
+                        created += 1
                     rec = {'ev': 'host', 'facet': what}
                     if what == 'warnings':
                         expect_show = True          # changing the filters resets the registries
@@ -439,16 +446,27 @@ def ambient_leg(c, rng, wd, nruns):
                                        'log_msg': 'loop {i}', 'condition': 'i >= 0'}}
                     rg.install([tp, second])
                     res = rg.run(mod.work, 5, only_file=path)
-                    runs_of_work += 1
+                    created += 1
                     if res != ('ok', 8) or rg.escaped:
                         raise tlc.MachineryError('ambient host run: %r %r' % (res, rg.escaped))
                     rec = {'ev': 'agent', 'features': list(what)}
                 after = _fingerprint(mod)
                 rec['changed'] = [f for f in FACETS if before[f] != after[f]]
                 # `work` holds a Res in a local: without the agent it is finalized the moment `work` returns
-                pending_after = runs_of_work - mod.FINALIZED[0] + len(parked)
+                pending_after = created - mod.FINALIZED[0] - len(kept)
                 if pending_after != pending_before:
                     rec['changed'].append('finalizers')
+                if kind == 'agent':
+                    # whatever the agent held on to must be gone after a garbage collection: only what the application
+                    # itself keeps is still alive
+                    gc.collect()
+                    left = created - mod.FINALIZED[0] - len(kept)
+                    if left != 0:
+                        rec['changed'].append('retained')
+                        rec['retained_objects'] = left
+                        created -= left          # (judged once: later steps start from what is alive now)
+                elif len(kept) != kept_before:
+                    rec['changed'].append('retained')
                 if kind == 'agent':
                     # the program's own DeprecationWarning (3 times at one location per run of `work`) is shown once per
                     # location until the application touches the filters again - with or without the agent
